@@ -1,6 +1,6 @@
 #!/bin/bash
-# verifies the round-5 seeded change of one property (/tmp/seed5-Cnn/_seed/1) and stores it as seeded/Cnn-<k> (k given)
+# verifies the round-5 seeded change of one property (/tmp/seed${ROUND:-5}-Cnn/_seed/1) and stores it as seeded/Cnn-<k> (k given)
 p=$1; k=$2
-d=/tmp/seed5-$p/_seed/1
+d=/tmp/seed${ROUND:-5}-$p/_seed/1
 [ -f $d/patch.diff ] || { echo "$p-$k: missing"; exit 1; }
 /verif/tools_seed.sh verify $d $p-$k 2>&1 | tail -2
